@@ -196,7 +196,7 @@ pub fn check(ctx: &mut Ctx) {
     }
     ctx.replay_corpus(replay);
     ctx.run_known_witnesses(|_sub, case, obs| replay_case::<HistoryCase, _>(case, obs, |c, obs| oracle(c, obs, false)));
-    ctx.random("histories", 420, 150_000, 1_500_000, gen, move |c, obs| oracle(c, obs, kf2));
+    ctx.random("histories", 420, 150_000, 10_000_000, gen, move |c, obs| oracle(c, obs, kf2));
     ctx.reshrink::<HistoryCase, _, _>("histories", move |c, obs| oracle(c, obs, kf2), |c, fails| {
         // fewer steps first, then a smaller document
         let mut cur = c.clone();
